@@ -67,6 +67,7 @@ fn main() {
                 }
             });
         }
+        "range-forgery-probe" => props::c16::probe(),
         "refcheck" => match refcheck::validate_reference() {
             Ok(n) => println!("reference model reproduces all fixtures ({} items)", n),
             Err(e) => {
